@@ -171,6 +171,9 @@ func c16Tokens(s string) []string {
 	return out
 }
 
+// c16LexGarbage: strings that stress the tokenizer rather than the grammar
+var c16LexGarbage = []string{"``", "`", "` `", "```", "`a``b`", "''", "'", "'\\'", "\"", "\"\"", "\\", "/*", "*/", "/* x", "--", "-- x\n", "#", ";", "\x00", "0x", "0xZZ", "1e", "1e+", ".5.", "..", "::", "@@", "@", "?", ":a", "!", "!=", "<=>", "<<", "|", "||", "&&", "~", "^", "%", "{", "}", "[", "]", "\t", "\n", "\r\n", "\u00a0", "\xff\xfe", "９", "ａ", "Ω"}
+
 func c16Mutate(r *rand.Rand, s string) string {
 	toks := c16Tokens(s)
 	if len(toks) == 0 {
@@ -179,7 +182,21 @@ func c16Mutate(r *rand.Rand, s string) string {
 	n := 1 + r.Intn(3)
 	for k := 0; k < n; k++ {
 		i := r.Intn(len(toks))
-		switch r.Intn(9) {
+		switch r.Intn(11) {
+		case 9: // quoting / comment / lexer-level garbage as a token of its own or glued to a token
+			g := c16LexGarbage[r.Intn(len(c16LexGarbage))]
+			switch r.Intn(3) {
+			case 0:
+				toks[i] = g
+			case 1:
+				toks[i] = toks[i] + g
+			default:
+				toks = append(toks[:i], append([]string{g}, toks[i:]...)...)
+			}
+		case 10: // token wrapped in quotes of some kind (possibly unbalanced)
+			q := []string{"`", "'", "\"", "``", "("}[r.Intn(5)]
+			q2 := []string{"`", "'", "\"", "", ")"}[r.Intn(5)]
+			toks[i] = q + toks[i] + q2
 		case 0: // delete
 			toks = append(toks[:i], toks[i+1:]...)
 		case 1: // duplicate
